@@ -106,6 +106,8 @@ fn convert_work_error(e : &WorkError) -> WErr
         WorkError::FileNotFound(p) => WErr::FileNotFound(p.clone()),
         WorkError::TargetFileNotGenerated(p) => WErr::NotGenerated(p.clone()),
         WorkError::CommandExecutedButErrored => WErr::CommandErrored,
+        // the system could not run the command at all: one error for the failed rule, like a non-zero exit
+        WorkError::CommandFailedToExecute(_) => WErr::CommandErrored,
         WorkError::Contradiction(paths) => WErr::Contradiction(paths.clone()),
         WorkError::ResolutionError(r) => WErr::Resolution(format!("{:?}", r)),
         other => WErr::Other(format!("{:?}", other)),
@@ -265,6 +267,16 @@ pub fn cache_files(disk : &Disk) -> Vec<(String, Vec<u8>)>
 
 impl World
 {
+    /*  True while the directory of some target (or of ruler's own directory) does not exist: commands cannot write
+        there and ruler cannot move files there, which the reference model does not describe.  Invocations made in such
+        a state are judged only for what holds regardless (termination, scope, nothing lost, cache names). */
+    pub fn env_broken(&self) -> bool
+    {
+        let mut paths : Vec<String> = self.rules.iter().flat_map(|r| r.targets()).collect();
+        paths.push(ruler_dir().to_string());
+        paths.iter().any(|p| { let parent = crate::verif::vsys::parent_of(p); parent != "" && !self.sys.is_dir_now(&parent) })
+    }
+
     pub fn new(seed : u64, clock : Clock, rules : Vec<GRule>) -> World
     {
         let mut rng = Rng::new(seed);
